@@ -293,6 +293,29 @@ theorem resolve_perm_invariant {os os' : List Overload} (hp : os.Perm os') (args
     rw [h, ht']
     exact hp1.trans ((hL.filter _).trans hp2.symm)
 
+/-- the executable form of `Outcome.Same` -/
+def Outcome.sameB : Outcome → Outcome → Bool
+  | .noMatch, .noMatch => true
+  | .winner s o, .winner s' o' => decide (s = s') && decide (o = o')
+  | .ambiguous t, .ambiguous t' => t.isPerm t'
+  | _, _ => false
+
+theorem Outcome.sameB_iff (a b : Outcome) : a.sameB b = true ↔ a.Same b := by
+  cases a <;> cases b <;> simp [Outcome.sameB, Outcome.Same, List.isPerm_iff]
+
+/-- the monitor of C19 on model traces: the same family registered under several orders gives the
+    same outcome for the same arguments -/
+def P_C19 (os : List Overload) (orders : List (List Overload)) (args : List Arg) : Bool :=
+  orders.all fun os' => (resolveCall os args).sameB (resolveCall os' args)
+
+/-- the monitor holds on every run of the model: for every family, every set of registration orders
+    of it and every argument tuple -/
+theorem P_C19_holds (os : List Overload) (orders : List (List Overload)) (args : List Arg)
+    (h : ∀ os' ∈ orders, os.Perm os') : P_C19 os orders args = true := by
+  simp only [P_C19, List.all_eq_true]
+  intro os' hmem
+  exact (Outcome.sameB_iff _ _).mpr (resolve_perm_invariant (h os' hmem) args)
+
 /-! ## the output type is the substitution of the winner's bindings -/
 
 /-- **output_is_substitution.** The output reported for the winner is `subst` of its declared output
